@@ -155,7 +155,7 @@ def r2_no_fabrication(ctx):
                         bad.append((name, s['rv']['adt'].rsplit('::', 1)[-1], s['span']))
     ctx.ob(rule, 'call graph of alpha_beta_search (%d functions)' % len(reach), 'ChessMove values are built only by the move generator',
            not bad, found=bad[:5], expected=[], why='the search must return one of the position\'s generated moves, never a fabricated one')
-    ctx.floor(rule, 'ChessMove construction sites in the search call graph', n, 8)
+    ctx.floor(rule, 'ChessMove construction sites in the search call graph', n, 4)
     ctx.extra['search_reachable_fns'] = len(reach)
     # the Ok value is the move component of the popped (score, move) pair; pairs are (score, clone(candidate))
     outs = search_outcomes(ctx)
